@@ -266,11 +266,23 @@ func stmtFact(st ast.Stmt, consts map[string]string) []string {
 		}
 		conds = append(conds, callees(x.Cond)...)
 		conds = append(conds, "cond:"+condStr(x.Cond))
-		return []string{mk("SIf", targets, conds, callees(x.Body), endsWithReturn(x.Body), "[]")}
+		calls := callees(x.Body)
+		for _, sc := range idents(x.Body, "StatusCode") {
+			calls = append(calls, "status:"+consts[sc])
+		}
+		if x.Else != nil {
+			calls = append(calls, "else")
+			calls = append(calls, callees(x.Else)...)
+		}
+		return []string{mk("SIf", targets, conds, calls, endsWithReturn(x.Body), "[]")}
 	case *ast.ExprStmt:
 		return []string{mk("SExpr", nil, nil, callees(x), false, "[]")}
 	case *ast.ReturnStmt:
-		return []string{mk("SReturn", nil, nil, callees(x), true, "[]")}
+		calls := callees(x)
+		for _, sc := range idents(x, "StatusCode") {
+			calls = append(calls, "status:"+consts[sc])
+		}
+		return []string{mk("SReturn", nil, nil, calls, true, "[]")}
 	case *ast.SwitchStmt:
 		var cases []string
 		for _, cc := range x.Body.List {
